@@ -307,9 +307,9 @@ class StandardFuncs(SnowfakeryPlugin):
             when: FieldDefinition = None,
         ):
             """Supports the choice: sub-items used in `random_choice` or `if`"""
-            if probability:
-                probability = parse_weight_str(self.context, probability)
-            return probability or when, pick
+            if probability is not None:
+                return parse_weight_str(self.context, probability), pick
+            return when, pick
 
         @memorable
         def random_reference(
